@@ -66,7 +66,8 @@ class Elab:
 
     def coords(self, cs):
         if self.spherical:
-            return [((c[0] * PI) / 180.0, (c[1] * PI) / 180.0) for c in cs]
+            # Point::operator/ multiplies by 1/scalar:  p * PI / 180.0  ==  (p * PI) * (1/180.0)
+            return [((c[0] * PI) * (1 / 180.0), (c[1] * PI) * (1 / 180.0)) for c in cs]
         return [(float(c[0]), float(c[1])) for c in cs]
 
     def dsurf(self, v, default, key=None):
